@@ -3,6 +3,7 @@
    once per operation in the model ([cy_now]); the code samples it at each of the four checks. *)
 From ToughV Require Export Model.Base Model.Sig Model.Glob Model.Deleg Model.Client Model.Stream Model.Read.
 From ToughV Require Import Proofs.ClientP Proofs.SitesP.
+From ToughV Require Export Proofs.RollbackP Proofs.DelegLoadP Proofs.LivenessP.
 From Coq Require Import ZifyBool Lia.
 Export ClientP SitesP.
 
@@ -83,3 +84,40 @@ Proof.
   destruct (tlookup _ tsrv); inversion E; reflexivity.
 Qed.
 Print Assumptions C04_read_unsafe.
+
+(* Conversely, nothing but those four expirations (and a clock that went back) can stop an uninterrupted cycle
+   against a valid repository: the premises below mention the expiration of the final root, the timestamp, the
+   snapshot and the targets only - the roots that were stepping stones of the walk (whatever [final_root] passed
+   through) and the delegated roles are not asked for theirs. [ts_accepted] etc. state that the documents fit, verify
+   and are not older than what the datastore holds, and contain "enforcement on -> now <= expires". *)
+Theorem C04_only_these_expirations_matter : forall c s r ts sn t0 t,
+  cy_fault c = None -> clock_fwd (cy_now c) s ->
+  final_root fixed c = Some r ->
+  (c_enforce (cy_cfg c) = true -> (cy_now c <= r_expires r)%Z) ->
+  ts_accepted (cy_cfg c) r (cy_srv c) (cy_now c) s ts ->
+  snap_accepted (cy_cfg c) r ts (cy_srv c) (cy_now c) s sn ->
+  tgt_accepted (cy_cfg c) r sn (cy_srv c) (cy_now c) s t0 ->
+  tgt_tree (cy_cfg c) (cy_srv c) sn (r_cs r) t0 t -> validate t = true ->
+  exists w', run_cycle fixed c s = (Ok {| rp_root := r; rp_ts := ts; rp_snap := sn; rp_targets := t |}, w').
+Proof. exact cycle_live. Qed.
+Print Assumptions C04_only_these_expirations_matter.
+
+(* a stepping stone that expired long ago: shipped root 1, root 2 expired at -1000, root 3 valid; enforcement on,
+   clock 0: the cycle succeeds with root 3 *)
+Definition c04_root (v : N) (exp : Z) : root :=
+  {| r_version := v; r_expires := exp; r_cs := false; r_keys := [0; 1; 2; 3];
+     r_roles := w_roles 3; r_sigs := [wk 0] |}.
+Definition c04_cyc : cyc :=
+  {| cy_cfg := {| c_max_root_size := 100; c_max_targets_size := 100; c_max_timestamp_size := 100;
+                  c_max_snapshot_size := 100; c_max_root_updates := 10; c_enforce := true; c_fuel := 20 |};
+     cy_shipped := CRoot (c04_root 1 100);
+     cy_srv := [(root_json 2, w_file (CRoot (c04_root 2 (-1000)))); (root_json 3, w_file (CRoot (c04_root 3 100)));
+                (name_timestamp, w_file (CTs (w_ts 5 5 3))); (name_snapshot, w_file (CSnap (w_snap 5)));
+                (name_targets, w_file (CTargets w_targets))];
+     cy_now := 0; cy_fault := None |}.
+Example C04_expired_stepping_stone :
+  match fst (run_cycle fixed c04_cyc store0) with
+  | Ok rp => r_version (rp_root rp) = 3
+  | Err _ _ => False
+  end.
+Proof. vm_compute. reflexivity. Qed.
